@@ -24,11 +24,13 @@ CLAUSES = {
     "C20.order": 20000, "C20.order.complete": 800, "C20.time": 20000,
     "C20.chain": 8000, "C20.chain.mcfg": 2000, "C20.log.state": 8000, "C20.lbook.rep": 8000,
     "C20.fresh.equal": 1500, "C20.fresh.noalias": 3000, "C20.fresh.library": 300, "C20.start.unmodified": 2000,
+    "C20.evolve.returns": 800,
 }
 HOOKS_REQUIRED = ["operator/logbook events", "evolve calls", "later replicates after in-place mutation",
                   "anchor entered: RecurrentSelectionBreedingProgram.reset", "anchor entered: RecurrentSelectionBreedingProgram.advance",
                   "anchor entered: RecurrentSelectionBreedingProgram.evolve", "anchor entered: RecurrentSelectionBreedingProgram.initialize",
-                  "cases with a manual history before evolve()"]
+                  "cases with a manual history before evolve()", "cases with dict-subclass containers",
+                  "cases with int-subclass / numpy integer arguments"]
 RULE = ("one case = one programme built from a seeded initial state (classes: empty, scalars, nested lists/dicts/sets, "
         "numpy arrays incl. views/object arrays/NaN, plain objects, cross-container aliasing and cycles, non-string keys, "
         "a pair of pybrops matrices, and 'library' states whose five dicts hold what the containers are documented to hold: "
@@ -40,6 +42,9 @@ RULE = ("one case = one programme built from a seeded initial state (classes: em
         "overwrite arrays) / return deep copies (optionally trashing the inputs) / return new dicts sharing nested objects / "
         "mixed per call incl. permuted or aliased returns and late mutation of containers of earlier replicates; logbook "
         "passive or mutating; nrep 0-6 (thorough: up to 10), ngen 0-8 (thorough: up to 25), loginit default/True/False; "
+        "in ~30 % of the cases every container the programme meets (initial state incl. nested dicts, what operators return, what the "
+        "caller assigns) is a dict subclass (OrderedDict, defaultdict, a user subclass with attributes, or a mix); in ~25 % nrep/ngen/"
+        "advance counts are numpy integers or nrep/ngen/t_max/t_cur are instances of an int subclass; "
         "scenarios: evolve, evolve twice, evolve then advance, operator raising mid-run then evolve again, reset()+advance(); "
         "about a third of the cases first get a manual history on the live programme (reset(), reset()+advance(), start_* "
         "re-assigned to new objects or edited in place, initialize() again with a new initop state, working containers edited "
@@ -61,6 +66,11 @@ ASSUME = ["the time index is 0 at the initial evaluation of a replicate and g in
           "index and cell values (NaN == NaN)",
           "an evolve() that raises while plain copy.deepcopy of the stored initial state raises too (the harness edited a library object of "
           "the initial state in place into something its class refuses to rebuild) is counted as raised, not as a violation",
+          "dict subclasses are valid state containers and int subclasses valid t_max/t_cur values (the documented checks are "
+          "isinstance-based); numpy integers are used only for nrep/ngen/advance counts, which the programme hands to range(); dict "
+          "subclasses compare by their items (type and extra attributes of the container are not part of state equality)",
+          "evolve()/advance()/construction raising on such valid input means the promised run did not happen: C20.evolve.returns "
+          "(counted once per call, also when it returns)",
           "an operator that raises aborts evolve(); only the stored initial state and the next evolve() are judged afterwards"]
 TIMEOUT = {"quick": 900, "thorough": 3 * 3600}
 
@@ -111,6 +121,8 @@ class Monitor(object):
         self.raise_at = None
         self.inplace_done = False   # some in-place mutation happened in an earlier replicate
         self.haslib, self.start_ok = False, True
+        self.contkind, self.intkind = "dict", "int"
+        self.typecls = "plain dict containers, int arguments"
         self.hist = ""              # "/after manual ..." once the caller worked on the programme by hand before evolve()
         self.inplace_now = False
 
@@ -232,6 +244,14 @@ class Monitor(object):
         ctx.check("C20.fresh.noalias", not sh, SITE + "reset", "a replicate's first state shares no mutable object with an earlier replicate's state", "any operators" + self.hist,
                   witness=self.witness(shared_object_types=sorted(set(sh)), n_shared=len(sh), replicate=exp.r), coords=self.coords)
 
+    def as_count(self, n):
+        """nrep / ngen / t_cur as the run's integer type (the programme's documented checks are isinstance-based)."""
+        if self.intkind == "int subclass":
+            return O.TInt(n)
+        if self.intkind == "numpy integer counts":
+            return numpy.int64(n)
+        return n
+
     def mutcls(self):
         return ("after in-place mutation by operators" if (self.inplace_done or self.inplace_now) else "no in-place mutation so far") + self.hist
 
@@ -285,8 +305,16 @@ class Harness(object):
         self.n = 0
         self.graveyard = []
         self.fixed_mcfg = {"fixed": True} if g.random() < 0.2 else None
+        self.contkind = "dict"
 
     def act(self, kind, conts):
+        out = self._act(kind, conts)
+        if self.contkind != "dict" and self.g.random() < 0.4:      # hand back dict-subclass containers (new shallow objects)
+            if not all(a is b for a, b in zip(out, conts)) or self.g.random() < 0.5:
+                out = [O.wrap_container(self.contkind, c, self.g) for c in out]
+        return out
+
+    def _act(self, kind, conts):
         g = self.g
         self.n += 1
         tag = (kind, self.n)
@@ -476,12 +504,13 @@ def _evolve(ctx, mon, bp, lb, nrep, ngen, loginit, verbose, injected):
     mon.lbook = lb
     mon.expect_evolve(nrep, ngen, loginit is None or bool(loginit), rep0)
     ctx.hook("evolve calls")
+    a_nrep, a_ngen = mon.as_count(nrep), mon.as_count(ngen)
     try:
         if verbose:
             with contextlib.redirect_stdout(io.StringIO()):
-                bp.evolve(nrep, ngen, lb, verbose=True, **kw)
+                bp.evolve(a_nrep, a_ngen, lb, verbose=True, **kw)
         else:
-            bp.evolve(nrep, ngen, lb, **kw)
+            bp.evolve(a_nrep, a_ngen, lb, **kw)
     except Boom as e:
         ctx.raised("evolve: harness operator raised on purpose", e)
         mon.abort_call()
@@ -498,13 +527,14 @@ def _evolve(ctx, mon, bp, lb, nrep, ngen, loginit, verbose, injected):
             return False
         ctx.raised("evolve", e)
         ctx.ok("C20.evolve.returns")
-        ctx.violation("C20.evolve.returns", SITE + "evolve", "raised %s" % type(e).__name__, mon.bicls,
+        ctx.violation("C20.evolve.returns", SITE + "evolve", "raised %s" % type(e).__name__, mon.typecls,
                       what="evolve raised %s: %s" % (type(e).__name__, str(e)[:160]),
                       witness=mon.witness(traceback=tb), coords=mon.coords)
         mon.abort_call()
         mon.dead = True
         return False
-    mon.end_call("evolve", rep0 + nrep, "injected-exception recovery" if injected else "evolve")
+    ctx.ok("C20.evolve.returns")
+    mon.end_call("evolve", int(rep0 + nrep), "injected-exception recovery" if injected else "evolve")
     return True
 
 
@@ -548,18 +578,20 @@ def _prelude(ctx, mon, bp, lb, initop, gp, plan):
                 mon.expect_advance(k, 0, lb.rep, True)
                 ctx.hook("direct reset()+advance() calls")
                 bp.reset()
-                bp.advance(k, lb)
+                bp.advance(mon.as_count(k), lb)
+                ctx.ok("C20.evolve.returns")
                 mon.end_call("advance", lb.rep, "reset()+advance()")
             elif act == "assign start_* (new objects)":
                 S = O.gen_state(gp, O.STATE_CLASSES[int(gp.integers(1, len(O.STATE_CLASSES)))])
                 S[int(gp.integers(5))][("installed", n)] = [n]
+                S = O.wrap_state(mon.contkind, S, gp)
                 _set_initial(mon, S)
                 bp.start_genome, bp.start_geno, bp.start_pheno, bp.start_bval, bp.start_gmod = S
             elif act == "assign one start_* (new object)":
                 if not bp.is_initialized():
                     continue
                 i = int(gp.integers(5))
-                new = {("installed", n): [n, float(gp.random())], "arr": gp.integers(0, 3, 4)}
+                new = O.wrap_container(mon.contkind, {("installed", n): [n, float(gp.random())], "arr": gp.integers(0, 3, 4)}, gp)
                 mon.S0[i], mon.S0brief[i] = O.dg(new, probe=True), O.brief(new)
                 setattr(bp, names[i], new)
             elif act == "edit start_* in place":
@@ -570,6 +602,7 @@ def _prelude(ctx, mon, bp, lb, initop, gp, plan):
             elif act == "initialize() again":
                 S = O.gen_state(gp, O.STATE_CLASSES[int(gp.integers(1, len(O.STATE_CLASSES)))])
                 S[int(gp.integers(5))][("re-initialised", n)] = [n]
+                S = O.wrap_state(mon.contkind, S, gp)
                 initop.state = S
                 _set_initial(mon, S)
                 bp.initialize()
@@ -581,14 +614,14 @@ def _prelude(ctx, mon, bp, lb, initop, gp, plan):
                     O.mutate(gp, work[int(gp.integers(5))], ("manual-work", n))
                 work[int(gp.integers(5))][("manual-work", n, "mark")] = n
             elif act == "assign a working container":
-                setattr(bp, O.NAMES[int(gp.integers(5))], {("manual-assign", n): [n]})
+                setattr(bp, O.NAMES[int(gp.integers(5))], O.wrap_container(mon.contkind, {("manual-assign", n): [n]}, gp))
             elif act == "set t_cur":
-                bp.t_cur = int(gp.integers(0, 9))
+                bp.t_cur = O.TInt(int(gp.integers(0, 9))) if mon.intkind == "int subclass" else int(gp.integers(0, 9))
         except Exception as e:
             ctx.raised("manual call before evolve: " + act, e)
             ctx.ok("C20.evolve.returns")
             ctx.violation("C20.evolve.returns", SITE + ("advance" if act == "reset+advance" else "reset"), "raised %s" % type(e).__name__,
-                          "manual call before evolve", what="%s raised %s: %s" % (act, type(e).__name__, str(e)[:160]),
+                          "manual call before evolve/" + mon.typecls, what="%s raised %s: %s" % (act, type(e).__name__, str(e)[:160]),
                           witness=mon.witness(traceback=traceback.format_exc()[-1500:]), coords=mon.coords)
             return False
     return True
@@ -608,22 +641,39 @@ def one_case(ctx, c):
     log_mutates = bool(g.random() < 0.12)
     verbose = bool(g.random() < 0.08)
     t_max = int(g.integers(0, 30))
-    S = O.gen_state(g, scls)
+    gt = ctx.rng("types", c)
+    contkind = "dict" if gt.random() < 0.7 else O.CONTAINER_KINDS[int(gt.integers(0, len(O.CONTAINER_KINDS)))]
+    intkind = "int" if gt.random() < 0.75 else ["int subclass", "numpy integer counts"][int(gt.integers(0, 2))]
+    S = O.wrap_state(contkind, O.gen_state(g, scls), gt)
     S0 = O.dgs(S, probe=True)
     params = {"case": c, "operators": beh, "init": init, "state_class": scls, "scenario": scen, "nrep": nrep, "ngen": ngen,
-              "loginit": loginit, "logbook_mutates": log_mutates, "t_max": t_max, "manual_history_before": plan}
+              "loginit": loginit, "logbook_mutates": log_mutates, "t_max": t_max, "manual_history_before": plan,
+              "containers": contkind, "integers": intkind}
     coords = [c, "run"]
-    ctx.case("%s/%s/%s" % (beh, init, scen), scls, nrep, ngen, loginit, log_mutates, t_max, S0, plan, trivial=(nrep == 0))
+    ctx.case("%s/%s/%s" % (beh, init, scen), scls, nrep, ngen, loginit, log_mutates, t_max, S0, plan, contkind, intkind, trivial=(nrep == 0))
     ctx.sumnote("initial-state class: " + scls)
     if c % 97 == 0:
         ctx.sample(dict(params, initial_state=[O.brief(s, 300) for s in S]))
     mon = Monitor(ctx, coords, beh, params)
     mon.S0, mon.S0brief = S0, [O.brief(s) for s in S]
     mon.haslib = bool(O.lib_index(S)[1])
+    mon.contkind, mon.intkind = contkind, intkind
+    # coarse input class for "the call raised" keys: the unusual type that is present (containers first)
+    mon.typecls = ("dict-subclass containers" if contkind != "dict" else
+                   (intkind + " arguments" if intkind != "int" else "plain dict containers, int arguments"))
+    ctx.sumnote("container type: " + contkind)
+    ctx.sumnote("integer type: " + intkind)
+    if contkind != "dict":
+        ctx.hook("cases with dict-subclass containers")
+    if intkind != "int":
+        ctx.hook("cases with int-subclass / numpy integer arguments")
     h = Harness(mon, g, beh, log_mutates)
+    h.contkind = contkind
+    if intkind == "int subclass":
+        t_max = O.TInt(t_max)
     pre = init in ("constructor", "setters")
     # a pre-initialised programme must never consult its initop: that one would deliver a visibly different state
-    other = [dict(s, **{"from-initop": [i]}) for i, s in enumerate(O.gen_state(g, "nested"))]
+    other = O.wrap_state(contkind, [dict(s, **{"from-initop": [i]}) for i, s in enumerate(O.gen_state(g, "nested"))], gt)
     initop = HInit(other if pre else S)
     try:
         if init == "constructor":
@@ -635,8 +685,12 @@ def one_case(ctx, c):
                 bp.start_genome, bp.start_geno, bp.start_pheno, bp.start_bval, bp.start_gmod = S
             elif init == "explicit initialize" or scen == "reset+advance":
                 bp.initialize()
-    except Exception as e:
+    except Exception as e:      # a valid initial state / operators / t_max refused: the run promised by the property never happens
         ctx.raised("constructing the programme", e)
+        ctx.ok("C20.evolve.returns")
+        ctx.violation("C20.evolve.returns", SITE + "__init__/start_* setters/initialize", "raised %s" % type(e).__name__, mon.typecls,
+                      what="building the programme (%s) raised %s: %s" % (init, type(e).__name__, str(e)[:160]),
+                      witness=mon.witness(traceback=traceback.format_exc()[-1500:]), coords=coords)
         return
     mon.bp = bp
     lb = HLog(h, rep=int(g.integers(0, 4)) if g.random() < 0.3 else 0)
@@ -653,14 +707,15 @@ def one_case(ctx, c):
         ctx.hook("direct reset()+advance() calls")
         try:
             bp.reset()
-            bp.advance(k, lb)
+            bp.advance(mon.as_count(k), lb)
         except Exception as e:
             ctx.raised("advance", e)
             ctx.ok("C20.evolve.returns")
-            ctx.violation("C20.evolve.returns", SITE + "advance", "raised %s" % type(e).__name__, mon.bicls,
+            ctx.violation("C20.evolve.returns", SITE + "advance", "raised %s" % type(e).__name__, mon.typecls,
                           what="reset()+advance() raised %s: %s" % (type(e).__name__, str(e)[:160]),
                           witness=mon.witness(traceback=traceback.format_exc()[-1500:]), coords=coords)
             return
+        ctx.ok("C20.evolve.returns")
         mon.end_call("advance", lb.rep, "reset()+advance()")
         # ... and a full evolve afterwards starts from the initial state again
         _evolve(ctx, mon, bp, lb, max(nrep, 1), min(ngen, 3), loginit, False, False)
@@ -685,14 +740,15 @@ def one_case(ctx, c):
         mon.expect_advance(k, ngen + 1, lb.rep, False)
         ctx.hook("advance() after evolve() calls")
         try:
-            bp.advance(k, lb)
+            bp.advance(mon.as_count(k), lb)
         except Exception as e:
             ctx.raised("advance", e)
             ctx.ok("C20.evolve.returns")
-            ctx.violation("C20.evolve.returns", SITE + "advance", "raised %s" % type(e).__name__, mon.bicls,
+            ctx.violation("C20.evolve.returns", SITE + "advance", "raised %s" % type(e).__name__, mon.typecls,
                           what="advance() after evolve() raised %s: %s" % (type(e).__name__, str(e)[:160]),
                           witness=mon.witness(traceback=traceback.format_exc()[-1500:]), coords=coords)
             return
+        ctx.ok("C20.evolve.returns")
         mon.end_call("advance", lb.rep, "advance() after evolve()")
 
 
